@@ -852,6 +852,30 @@ func genUnfCache(r *Rand, tier string, emit func(string)) {
 	}
 }
 
+// genUnfRefusedHist: ONE unfolder, SetTarget over histories that mix refused self-referential
+// types (BadA / BadB: a member of unsupported type deep inside a cycle), types that are only
+// seen ON THE WAY while such a type is being refused (their unfolders may have been completed
+// and cached around a placeholder that is never filled), and healthy types: whether a type is
+// accepted must not depend on the history (C17), and nothing half-built may survive (C14)
+func genUnfRefusedHist(r *Rand, tier string, emit func(string)) {
+	ts := []string{"@BadA", "@BadB", "*@BadB", "**@BadA", "[]@BadA", "[]*@BadB", "map:@BadB", "*[]*@BadA", "map:*@BadA",
+		"@List", "@In", "@Arr", "[]@Arr", "@A", "*@Arr", "@Tree"}
+	for _, a := range ts {
+		for _, b := range ts {
+			emit("unf-seq " + a + "," + b)
+		}
+	}
+	n := tierN(tier, 150, 3000)
+	for i := 0; i < n; i++ {
+		k := 3 + r.Intn(4)
+		var seq []string
+		for j := 0; j < k; j++ {
+			seq = append(seq, Pick(r, ts))
+		}
+		emit("unf-seq " + strings.Join(seq, ","))
+	}
+}
+
 func genUnfAll(gs ...GenFn) GenFn {
 	return func(r *Rand, tier string, emit func(string)) {
 		for _, g := range gs {
@@ -865,5 +889,8 @@ func init() {
 	RegisterGen("C13", genUnfAll(genUnfKinds, genUnfAny, genUnfStructs))
 	RegisterGen("C14", genUnfAll(genUnfMismatch, genUnfLens, genUnfReuse, genUnfKinds))
 	RegisterGen("C17", genUnfReuse)
+	for _, p := range []string{"C17", "C14", "C13", "XUNF"} {
+		RegisterGen(p, genUnfRefusedHist)
+	}
 	RegisterGen("C20", genUnfCache)
 }
